@@ -28,6 +28,8 @@ type notifyReader struct {
 	last  map[string]int
 	count int64
 	spin  int64 // nanoseconds of busy work inside the callback
+	in    int32 // callbacks running right now
+	over  int64 // times a callback started while another one was running
 }
 
 func (r *notifyReader) RemoteSKIConnected(string)    {}
@@ -42,6 +44,10 @@ func (r *notifyReader) ServicePairingDetailUpdate(ski string, d *api.ConnectionS
 	// what the application saw is recorded first: the driver, polling without a pause, issues the next operation while the
 	// callback is still busy for a varying time, so that the next update is queued around the moment the callback
 	// returns and the delivery goroutine finds its queue empty
+	if atomic.AddInt32(&r.in, 1) > 1 {
+		atomic.AddInt64(&r.over, 1)
+	}
+	defer atomic.AddInt32(&r.in, -1)
 	r.mu.Lock()
 	r.last[ski] = int(d.State())
 	r.mu.Unlock()
@@ -107,13 +113,20 @@ func notifystressMain(args []string) int {
 		}
 	}
 	for i := 0; i < *n && bad < 3; i++ {
-		atomic.StoreInt64(&rd.spin, int64(rnd.Intn(3000)))
+		sp := rnd.Intn(3000)
+		if rnd.Intn(8) == 0 {
+			sp = rnd.Intn(60000) // long enough for a second delivery goroutine, if one can be started, to get going
+		}
+		atomic.StoreInt64(&rd.spin, int64(sp))
 		ski := skis[0]
 		if rnd.Intn(8) == 0 {
 			ski = skis[1]
 		}
 		op := toggle(ski)
 		converged(i, op, ski)
+	}
+	if o := atomic.LoadInt64(&rd.over); o > 0 {
+		fmt.Fprintf(f, "BAD %d times the application was called with a pairing update while the call for an earlier update was still running: two delivery goroutines are alive, the order in which updates reach the application is the scheduler's\n", o)
 	}
 	fmt.Fprintf(f, "SUMMARY ops=%d notifications=%d bad=%d slowest_us=%d\n", *n, atomic.LoadInt64(&rd.count), bad, slowest.Microseconds())
 	return 0
